@@ -45,10 +45,15 @@ func DurationValueWithin(d time.Duration) Value {
 		if returnEarly {
 			return equal, ok
 		}
+		diff := xd - yd
 		if xd < yd {
-			return yd-xd <= d, true
+			diff = yd - xd
 		}
-		return xd-yd <= d, true
+		if diff < 0 {
+			// the difference overflowed time.Duration, the values are further apart than any d
+			return false, true
+		}
+		return diff <= d, true
 	}
 }
 
